@@ -53,13 +53,13 @@ REQUIRED = {
     "C15": {"group_participation_judged_by_reference": 500, "replacement_valid": 200, "replacement_invalid": 200, "more_than_9_groups": 100, "input_several_matches": 100, "input_no_match": 100},
     "C16": {"xsd_oracle_nullable": 200, "xsd_oracle_not_nullable": 200, "oracle_nullable": 500, "oracle_not_nullable": 500, "literal_patterns": 50},
     "C17": {"flag_gate": 50, "gate_or_invalid": 500, "xsd_accepted_valid": 500, "dialects_compared": 500, "literal_anchor_checked": 100},
-    "C18": {"cross_object_probes": 50, "block_table_init_races": 1, "iterators_kept_alive_across_calls": 100, "overlapping_call_pairs": 1, "fresh_results_cross_checked_with_reference": 100},
+    "C18": {"iterators_retired_out_of_order": 100, "cross_object_probes": 50, "block_table_init_races": 1, "iterators_kept_alive_across_calls": 100, "overlapping_call_pairs": 1, "fresh_results_cross_checked_with_reference": 100},
     "C19": {"literal_twin_matches": 500, "literal_twin_does_not_match": 200, "with_backref": 1000, "groups_judged": 500},
     "C20": {"spans_compared": 500},
     "C11": {"literal_case_blind_matches": 500, "literal_oracle_false": 200, "case_swap_twins": 1000, "monotonic_checked": 200, "oracle_true": 500, "oracle_false": 500},
     "C06": {"inside_bounds": 1000, "longer_inputs_for_zero_width_runs": 1000, "zero_width_iterations_observed": 1000},
     "C14": {"xsd_dialect_whitespace_inserted": 300, "whitespace_inserted": 1000, "base_rejected": 100},
-    "C09": {"unanchored_class_checked": 500, "membership_tests": 100000, "quantified_equivalence_checked": 100, "raw_hyphen_at_group_edge": 200},
+    "C09": {"class_spellings_compared": 50, "unanchored_class_checked": 500, "membership_tests": 100000, "quantified_equivalence_checked": 100, "raw_hyphen_at_group_edge": 200},
     "C10": {"unanchored_escape_checked": 500, "membership_tests": 100000, "unknown_names_rejected": 100, "identity_characters": 1000, "escape_pairs_in_one_class_checked": 100},
     "C05": {"compiled_ok": 1000, "compile_rejected": 1000, "structured_cases": 1000},
     "C01": {"probe_prefix_scan": 100, "probe_initial_class": 100, "probe_min_length_cut": 100, "probe_precondition_reject": 100, "probe_bol_single_line": 100, "probe_bol_multi_line": 100, "oracle_true": 500, "oracle_false": 500},
